@@ -14,7 +14,7 @@
      validation.py  _cleanup_whitespace, _trim_trailing_newlines, check_duplicate_passages,
                validate_passage_arguments (with the recursive walk into conditionals and loops),
                _validate_single_call (Python's parser is the oracle py_call_shape, plus
-               py_body_is_call, below), _determine_initial_passage.
+               py_body_is_call, below; a repeated keyword is rejected: fix F07e), _determine_initial_passage.
    BEHIND THE EXTRACTOR CONTRACT (part B, Compiler/ParseBlocks.v; here a record of functions):
      extract_python_block, extract_conditional_block, extract_loop_block : lines -> start ->
      pres (construct * lines_consumed); extract_join_choice_block : lines -> start -> choice_indent ->
@@ -150,6 +150,14 @@ Fixpoint add_positional (n : nat) (param_names : list string) (i : nat) (acc : l
       end
   end.
 
+(* fix F07e: `len(keyword_args) != len(call_node.keywords)` -- the dict built from the keywords is shorter than
+   the keyword list exactly when a name occurs twice in it *)
+Fixpoint has_repeat (l : list string) : bool :=
+  match l with
+  | [] => false
+  | x :: r => str_in x r || has_repeat r
+  end.
+
 Definition validate_single_call (passages : list (string * passage)) (target args_str : string)
   : pres unit :=
   if String.eqb target "@join" then POk tt else
@@ -168,6 +176,10 @@ Definition validate_single_call (passages : list (string * passage)) (target arg
               if negb (py_body_is_call args_str) then dsyn "call:malformed-arguments" 0 else
               (* fix F12c: `*args` / `**kwargs` cannot be played; the oracle lists them as the keyword names "*" / "**" *)
               if str_in "*" keyword_args || str_in "**" keyword_args then dsyn "call:malformed-arguments" 0 else
+              (* fix F07e: a repeated keyword, `T(a=1, a=2)` (ast.parse accepts it, CPython reports it only when
+                 compiling; the engine would keep the last value): raised inside the same `try`, so it is the same
+                 "Malformed arguments" diagnostic *)
+              if has_repeat keyword_args then dsyn "call:malformed-arguments" 0 else
               let param_names := map pname ps in
               let required := filter (fun p => match pdefault p with None => true | Some _ => false end) ps in
               if List.length ps <? positional_count then dsyn "call:too-many-positional" 0 else
